@@ -5,7 +5,8 @@
     tools/mutants.py run    <stride> <out.jsonl> [offset]  # generate, filter by the test-suite, run the mapped checks
 
 A mutant is ONE token-level edit of one source file of /repo/armulator (comparison / arithmetic / shift / bitwise
-operator swapped, small integer constant +-1, `and`<->`or`, `not` dropped, True<->False).  Sites are enumerated with
+operator swapped, small integer constant +-1, `and`<->`or`, `not` dropped, True<->False), or - MUT_KINDS=del-stmt - one
+single-line assignment / call statement replaced by `pass`.  Sites are enumerated with
 `ast` over every source file; every <stride>-th site (per file category) is taken - this tool evaluates the checker, it
 is not a check, so a stride sample is fine here.  For each mutant, in a scratch copy under /tmp/mut (removed at the end):
   1. the repository's 686 tests are run; a mutant they kill is of no interest ("killed-by-tests");
@@ -76,7 +77,19 @@ def sites(path):
                 out.append((node.lineno, node.col_offset, node.end_col_offset, txt, str(node.value + 1), "const+1"))
                 if node.value > 0:
                     out.append((node.lineno, node.col_offset, node.end_col_offset, txt, str(node.value - 1), "const-1"))
-    # drop edits inside print(...) / raise messages: strings are not Constants of int type, nothing to do
+    # statement deletion: a single-line assignment / augmented assignment / call statement becomes `pass`
+    # (a forgotten side effect); print() diagnostics and docstrings are not statements of interest
+    for node in ast.walk(tree):
+        if isinstance(node, (ast.Assign, ast.AugAssign, ast.Expr)) and node.lineno == node.end_lineno:
+            if isinstance(node, ast.Expr):
+                v = node.value
+                if not isinstance(v, ast.Call):
+                    continue
+                fn = v.func
+                if isinstance(fn, ast.Name) and fn.id == "print":
+                    continue
+            txt = lines[node.lineno - 1][node.col_offset:node.end_col_offset]
+            out.append((node.lineno, node.col_offset, node.end_col_offset, txt, "pass", "del-stmt"))
     out.sort()
     return out
 
@@ -202,9 +215,14 @@ DENSITY = {"core": 1, "regclasses": 2, "decoders": 2, "abstract": 3, "concrete":
 def select(stride, offset=0):
     out = []
     cats = os.environ.get("MUT_CATS")          # e.g. MUT_CATS=abstract,core restricts the categories
+    kinds = os.environ.get("MUT_KINDS")        # e.g. MUT_KINDS=del-stmt restricts the mutation operators
     for cat, lst in sorted(all_sites().items()):
         if cats and cat not in cats.split(","):
             continue
+        if kinds:
+            lst = [m for m in lst if m[6] in kinds.split(",")]
+        else:
+            lst = [m for m in lst if m[6] != "del-stmt"]       # the first sweeps used the token operators only
         st = max(1, stride * DENSITY[cat])
         out += [m for i, m in enumerate(lst) if i % st == offset % st]
     return out
